@@ -6,8 +6,11 @@ cd /repo || exit 2
 git diff --quiet || { echo "/repo is dirty"; exit 2; }
 git apply /verif/seeded/$S/patch.diff || exit 2
 cd /verif
+# the committed evidence describes the unchanged tree: keep it
+cp evidence/$P.json /tmp/seedrun-evidence-$P.json 2>/dev/null
 timeout 3000 bin/check $P --tier $T > /tmp/seedrun-$S-$P.log 2>&1
 rc=$?
+[ -f /tmp/seedrun-evidence-$P.json ] && mv /tmp/seedrun-evidence-$P.json evidence/$P.json
 cd /repo && git checkout -- . 
 case $rc in 1) r=DETECTED;; 0) r=MISSED;; *) r=BROKEN;; esac
 echo "$S $P $T $r (rc=$rc) $(grep -c VIOLATION /tmp/seedrun-$S-$P.log) violation lines; $(grep -m1 'violation:' /tmp/seedrun-$S-$P.log | cut -c1-300)"
